@@ -50,6 +50,12 @@ def gen_ranges(rng, src, n):
         if first < end and first in offs_set(offs) and end in offs_set(offs):
             marks.append((first, end))
         pos = end + 1
+    if len(bs) <= 120:
+        # a short source: many sub-ranges, so that inner nodes get selected
+        for _ in range(6 * n):
+            a = rng.pick(offs)
+            b = rng.pick(offs)
+            out.append((min(a, b), max(a, b)))
     k = n if len(bs) > 400 else 4 * n
     for _ in range(min(k, len(marks) * 2)):
         i = rng.below(len(marks))
